@@ -21,6 +21,26 @@ from ..model import AnalysisError
 STDLIB = ("itertools", "functools", "graphlib", "math", "operator")
 
 
+class Ty:
+    """A stand-in type: all are instances of one class and carry the flags a shortcut might look at."""
+
+    keyable_type = True
+    exclusive_type = True
+
+    def __init__(self, name):
+        self.name = name
+        self.__name__ = name
+
+    def __repr__(self):
+        return self.name
+
+    def __lt__(self, other):
+        return self.name < other.name
+
+
+T = {n: Ty(n) for n in ("T0", "T1", "T2", "X", "Q")}
+
+
 def _imports(mod):
     """names the module imports from a few standard library modules -> host objects"""
     out = {}
@@ -47,6 +67,7 @@ def run(ctx, relation, applicable=("T0", "T1", "T2"), extra=("X",), order_of_ava
     asked, tested = [], []
 
     def typeorder(a, b):
+        a, b = getattr(a, "name", a), getattr(b, "name", b)
         asked.append((a, b))
         if a == b:
             return "SAME"
@@ -56,6 +77,7 @@ def run(ctx, relation, applicable=("T0", "T1", "T2"), extra=("X",), order_of_ava
         return {"LESS": "MORE", "MORE": "LESS"}.get(r, r)
 
     def subclasscheck(c, t):
+        c, t = getattr(c, "name", c), getattr(t, "name", t)
         tested.append((c, t))
         return c == "Q" and t in applicable
 
@@ -64,13 +86,13 @@ def run(ctx, relation, applicable=("T0", "T1", "T2"), extra=("X",), order_of_ava
     genv.setdefault("TopologicalSorter", graphlib.TopologicalSorter)
     funcs = {n: g.node for n, g in f.module.funcs.items() if g.parent is None and g.cls is None and g is not f and g is not sc and g is not to}
     hi = HostInterp({}, Record(), {}, globals_env=genv, classes={}, functions=funcs)
-    hi.host_types = hi.host_types + (graphlib.TopologicalSorter,)
+    hi.host_types = hi.host_types + (graphlib.TopologicalSorter, Ty)
     avail = list(order_of_avail or (list(applicable) + list(extra)))
     try:
-        out = hi.call_function(f.node, ["Q", avail], {}, {})
+        out = hi.call_function(f.node, [T["Q"], [T[a] for a in avail]], {}, {})
     except Raised as r:
         raise AnalysisError(f"{f.key}: raises {r.what} on a consistent order")
-    layers = [sorted(x) for x in out]
+    layers = [sorted(getattr(t, "name", t) for t in x) for x in out]
     return layers, asked, tested
 
 
